@@ -1,7 +1,7 @@
 #!/bin/bash
 # try_mutant.sh <patch.diff> <tier> <property-id>...   apply a seeded change to /repo, run the named checks, undo it.
 # Prints one line per check: CAUGHT (exit 1 with VIOLATION), MISSED (exit 0) or INCONCLUSIVE (exit 2).
-patch=$1; tier=$2; shift 2
+patch=$(readlink -f "$1"); tier=$2; shift 2
 cd /repo || exit 2
 if [ -n "$(git status --porcelain)" ]; then echo "/repo is not clean"; exit 2; fi
 if ! git apply --check "$patch" 2>/dev/null; then echo "patch does not apply: $patch"; exit 2; fi
